@@ -280,7 +280,7 @@ func genHammers(o genOpts, w *bufio.Writer, families ...string) {
 	r := &rng{s: o.seed ^ 0x68616d}
 	rounds := 40
 	if o.tier == "thorough" {
-		rounds = 400
+		rounds = 150
 	}
 	k := 0
 	for _, f := range families {
